@@ -667,6 +667,13 @@ func h5Cadence(env *Env, c *H5Cfg, sh *h5Shared, stats simrt.Stats) {
 			sum += uint64(call.V)
 		}
 	}
+	// ticks come from one ticker: their timestamps lie one or more whole intervals apart, however late they are handled
+	for k := 2; k < len(sh.outer); k++ {
+		if d := sh.outer[k].ArgNs - sh.outer[k-1].ArgNs; d <= 0 || d%iv != 0 {
+			env.Violate("C09", "tick-off-grid", "cadence/"+c.Kind, "tick %d is stamped %s after tick %d: not a whole number of intervals (%s)", k, dur(d), k-1, dur(iv))
+			break
+		}
+	}
 	got := sh.started + sh.dropped
 	if c.Direct {
 		got = sum
